@@ -1440,9 +1440,15 @@ Qed.
 (* Part 4c: an emission during which a reactive sink edits the graph                                 *)
 (* ================================================================================================ *)
 
+(* the body of the loop of Stream._emit in rdeliver: the loop walks the snapshot of the downstreams of n taken when it
+   started; a child that is no longer among the downstreams of n in the CURRENT graph (detached by the edit before it
+   was served) is skipped; a child attached during the emission is not in the snapshot and is served only by the
+   emissions that start later *)
+
 Definition rstep (f n : nat) (x : val) (acc : rstate) (d : nat) : rstate :=
   let '(g, p, raised, log) := acc in
   if raised then acc else
+  if negb (mem d (t_downs (tget g n))) then acc else      (* detached since the snapshot: skipped *)
   let nd := tget g d in
   let log := log ++ [(n, d, x)] in
   match tk nd with
@@ -1543,6 +1549,8 @@ Lemma rstep_spec f n x ga pa ra la d g' p' r' l' :
   TInv0 g' /\ pend_ok g' p' /\ evolve ga pa g' p'.
 Proof.
   intros IH I P E. unfold rstep in E. destruct ra.
+  { inversion E; subst. auto using evolve_refl. }
+  destruct (negb (mem d (t_downs (tget ga n)))).
   { inversion E; subst. auto using evolve_refl. }
   destruct (tk (tget ga d)) eqn:K.
   - (* pipe *)
